@@ -3,7 +3,7 @@
 //! schedules and judge each run.
 
 use crate::embed::*;
-use crate::judge::judge;
+use crate::judge::{Judgement, judge};
 use crate::plan::{self, RunSpec, Tier};
 use crate::rng::{Rng, mix};
 use crate::workload::Workload;
@@ -93,6 +93,7 @@ fn nontrivial(prop: &str, r: &RunResult) -> bool {
     match prop {
         "C06" | "C26" => mid_cycle_instr && c("gc_objects_freed") > 0,
         "C17" => mid_cycle_string || c("probe_slice_boundary_in_string_op") > 0,
+        "C07" => true,
         "C10" => r.calls >= 3,
         "C11" => r.calls >= 3 || c("f2_defer") > 0,
         "C08" | "C09" => c("ev_spawn") > 0 && (c("f2_defer") > 0 || mid_cycle_instr || r.calls >= 3),
@@ -132,6 +133,7 @@ pub fn reference_run(w: &Workload, mk: &dyn Fn() -> abra_core::vm::Runtime, step
         step_cap,
         selfcheck_every: 0,
         quarantine: true,
+        record_string_steps: true,
         ..Default::default()
     };
     run_once(
@@ -165,6 +167,7 @@ pub fn run_cell(prop: &str, tier: Tier, cell_seed: u64, workload: Workload, keep
     rep.ref_steps = reference.steps;
     rep.ref_outcome = format!("{:?}", reference.outcome).chars().take(80).collect();
     let ref_spec = RunSpec {
+        mode: plan::Mode::Normal,
         label: "reference".into(),
         personality: Personality::reference(workload.neutral_budget()),
         opts: RunOptions {
@@ -203,8 +206,7 @@ pub fn run_cell(prop: &str, tier: Tier, cell_seed: u64, workload: Workload, keep
                 rng: Rng::new(mix(cell_seed, 1000 + i as u64)),
                 p: spec.personality.clone(),
             };
-            let res = run_once(&mk, src, &spec.opts);
-            let j = judge(&workload, Some(&reference), &res, spec.liveness_due);
+            let Evaluated { result: res, judgement: j } = evaluate(&workload, &mk, Some(&reference), spec, src);
             rep.runs += 1;
             rep.sim_steps += res.steps;
             rep.idle_turns += res.idle_turns;
@@ -264,4 +266,271 @@ pub fn run_cell(prop: &str, tier: Tier, cell_seed: u64, workload: Workload, keep
         rep.workload = Some(workload);
     }
     rep
+}
+
+pub struct Evaluated {
+    pub result: RunResult,
+    pub judgement: Judgement,
+}
+
+fn mem_violation(oracle: &str, msg: String) -> Violation {
+    Violation {
+        oracle: oracle.to_string(),
+        msg,
+    }
+}
+
+/// growth rule shared by the leak modes: live bytes after iterations 3, 4, 5, 6 of an identical
+/// life must not keep growing (the first two iterations absorb one-off capacity effects)
+fn leak_verdict(live: &[usize], what: &str) -> Option<Violation> {
+    let n = live.len();
+    let steady = &live[n - 4..];
+    let grows_every_time = steady.windows(2).all(|w| w[1] > w[0]);
+    if grows_every_time {
+        let per_iteration = (steady[3] - steady[0]) / 3;
+        Some(mem_violation(
+            "mem:leak-per-create-run-drop",
+            format!(
+                "process memory grows by about {per_iteration} bytes every time {what} (live bytes after each of the last four identical iterations: {steady:?})"
+            ),
+        ))
+    } else {
+        None
+    }
+}
+
+/// several runtimes of one program, created / run / serviced / dropped in an interleaved order
+fn life_history_once(mk: &dyn Fn() -> abra_core::vm::Runtime, seed: u64, ops: u32) -> Result<(), String> {
+    use abra_core::vm::RuntimeStatusKind;
+    let mut rng = Rng::new(seed);
+    let host = PlainHost::new();
+    let mut slots: Vec<Option<abra_core::vm::Runtime>> = (0..4).map(|_| None).collect();
+    let r = std::panic::catch_unwind(std::panic::AssertUnwindSafe(|| -> Result<(), String> {
+        for _ in 0..ops {
+            let j = rng.below(4) as usize;
+            match rng.below(10) {
+                0 | 1 => {
+                    if slots[j].is_none() {
+                        slots[j] = Some(mk());
+                    }
+                }
+                2..=6 => {
+                    if let Some(rt) = slots[j].as_mut() {
+                        let k = *rng.pick(&[1u32, 3, 17, 100, 1000, 5000]);
+                        let st = rt.run_n_steps(k);
+                        match st.kind {
+                            RuntimeStatusKind::Done | RuntimeStatusKind::MainThreadError(_) => {
+                                // finished runtimes are dropped at once or kept around for a while
+                                if rng.chance(1, 2) {
+                                    slots[j] = None;
+                                }
+                            }
+                            _ => {
+                                if rng.chance(3, 4) {
+                                    host.serve_all(rt)?;
+                                }
+                            }
+                        }
+                    }
+                }
+                7 => {
+                    if let Some(rt) = slots[j].as_mut() {
+                        host.serve_all(rt)?;
+                    }
+                }
+                _ => {
+                    slots[j] = None;
+                }
+            }
+        }
+        Ok(())
+    }));
+    let r2 = std::panic::catch_unwind(std::panic::AssertUnwindSafe(|| slots.clear()));
+    match (r, r2) {
+        (Ok(Ok(())), Ok(())) => Ok(()),
+        (Ok(Err(e)), _) => Err(e),
+        (Err(e), _) | (_, Err(e)) => Err(if let Some(s) = e.downcast_ref::<String>() {
+            s.clone()
+        } else if let Some(s) = e.downcast_ref::<&str>() {
+            s.to_string()
+        } else {
+            "panic".into()
+        }),
+    }
+}
+
+pub fn evaluate(
+    w: &Workload,
+    mk: &dyn Fn() -> abra_core::vm::Runtime,
+    reference: Option<&RunResult>,
+    spec: &RunSpec,
+    src: Source,
+) -> Evaluated {
+    use plan::Mode;
+    match &spec.mode {
+        Mode::Normal => {
+            let result = run_once(mk, src, &spec.opts);
+            let judgement = judge(w, reference, &result, spec.liveness_due);
+            Evaluated { result, judgement }
+        }
+        Mode::LeakRepeat => {
+            let first = run_once(mk, src, &spec.opts);
+            let mut violations = first.violations.clone();
+            if violations.is_empty() {
+                let trace = first.trace.clone();
+                let mut live = vec![];
+                for _ in 0..6 {
+                    let r = run_once(mk, Source::Trace(trace.clone()), &spec.opts);
+                    let faults = r.violations.clone();
+                    drop(r);
+                    live.push(crate::mem::live());
+                    if let Some(v) = faults.first() {
+                        violations.push(v.clone());
+                        break;
+                    }
+                }
+                if violations.is_empty()
+                    && let Some(v) = leak_verdict(&live, "this runtime life (create, run under this schedule, drop at this point) is repeated")
+                {
+                    violations.push(v);
+                }
+            }
+            Evaluated {
+                result: first,
+                judgement: Judgement {
+                    violations,
+                    inconclusive: false,
+                },
+            }
+        }
+        Mode::LifeHistory { seed, ops } => {
+            // the RunResult only carries counters here; the history itself is a function of `seed`
+            let mut result = run_once(mk, src, &spec.opts);
+            let mut violations = result.violations.clone();
+            abra_core::verif::reset();
+            abra_core::verif::set_config(abra_core::verif::Config {
+                quarantine: false,
+                selfcheck_every: 0,
+            });
+            let mut live = vec![];
+            for _ in 0..6 {
+                if let Err(e) = life_history_once(mk, *seed, *ops) {
+                    violations.push(mem_violation(
+                        "fault:host-panic",
+                        format!("panic during a create / run / drop history of several runtimes: {}", e.lines().next().unwrap_or("")),
+                    ));
+                    break;
+                }
+                abra_core::verif::reset();
+                live.push(crate::mem::live());
+            }
+            if violations.is_empty()
+                && let Some(v) = leak_verdict(&live, "this interleaved history of creating, running and dropping up to four runtimes is repeated")
+            {
+                violations.push(v);
+            }
+            result.counters.insert("f8_life_history_ops".into(), *ops as u64 * 6);
+            Evaluated {
+                result,
+                judgement: Judgement {
+                    violations,
+                    inconclusive: false,
+                },
+            }
+        }
+        Mode::Completeness => {
+            let mut opts = spec.opts.clone();
+            opts.completeness_probe = true;
+            let result = run_once(mk, src, &opts);
+            let mut judgement = judge(w, reference, &result, spec.liveness_due);
+            if judgement.violations.is_empty() && !judgement.inconclusive {
+                let mut ref_opts = opts.clone();
+                ref_opts.selfcheck_every = 0;
+                let r2 = run_once(
+                    mk,
+                    Source::Seed {
+                        rng: Rng::new(0),
+                        p: Personality::reference(w.neutral_budget()),
+                    },
+                    &ref_opts,
+                );
+                // with tasks only main's heap at completion is comparable (the other tasks are
+                // wherever the schedule left them)
+                let comparable = if w.has_tasks {
+                    matches!(result.outcome, Outcome::Done) && matches!(r2.outcome, Outcome::Done)
+                } else {
+                    result.outcome == r2.outcome || (matches!(result.outcome, Outcome::Dropped) && matches!(r2.outcome, Outcome::Dropped))
+                };
+                if comparable
+                    && let (Some(a), Some(b)) = (&result.live_after_full_gc, &r2.live_after_full_gc)
+                {
+                    let (x, y) = if w.has_tasks { (&a[..1.min(a.len())], &b[..1.min(b.len())]) } else { (&a[..], &b[..]) };
+                    if x != y {
+                        judgement.violations.push(mem_violation(
+                            "mem:unreachable-survives-full-collection",
+                            format!(
+                                "after two quiescent full collections {x:?} objects are live per thread, but {y:?} after the collector-off run to the same point ({} instructions)",
+                                result.steps
+                            ),
+                        ));
+                    }
+                }
+            }
+            Evaluated { result, judgement }
+        }
+        Mode::Bounded { n } => {
+            let mut small = spec.opts.clone();
+            small.next_int_base = *n;
+            let mut big = spec.opts.clone();
+            big.next_int_base = 4 * *n;
+            // one unmeasured run first, so that tables and buffers of the harness and of the
+            // hook module have reached their working capacity before anything is measured
+            drop(run_once(mk, src.clone(), &small));
+            let base = crate::mem::live();
+            crate::mem::reset_peak();
+            let r1 = run_once(mk, src.clone(), &small);
+            let proc1 = crate::mem::peak().saturating_sub(base);
+            let (h1, steps1, ok1) = (r1.peak_heap, r1.steps, matches!(r1.outcome, Outcome::Done) && r1.violations.is_empty());
+            let v1 = r1.violations.clone();
+            drop(r1);
+            let base = crate::mem::live();
+            crate::mem::reset_peak();
+            let result = run_once(mk, src, &big);
+            let proc2 = crate::mem::peak().saturating_sub(base);
+            let mut violations = v1;
+            violations.extend(result.violations.clone());
+            let mut inconclusive = false;
+            if violations.is_empty() {
+                if ok1 && matches!(result.outcome, Outcome::Done) {
+                    let h2 = result.peak_heap;
+                    if h2 as f64 > 1.25 * h1 as f64 + 4096.0 {
+                        violations.push(mem_violation(
+                            "mem:heap-grows-with-work",
+                            format!(
+                                "peak VM heap {h2} bytes with size parameter {} vs {h1} bytes with {n} ({} vs {steps1} instructions) although the reachable data is constant",
+                                4 * n, result.steps
+                            ),
+                        ));
+                    } else if proc2 as f64 > 1.5 * proc1 as f64 + 262_144.0 {
+                        violations.push(mem_violation(
+                            "mem:process-memory-grows-with-work",
+                            format!(
+                                "peak process memory {proc2} bytes with size parameter {} vs {proc1} bytes with {n} although the reachable data is constant",
+                                4 * n
+                            ),
+                        ));
+                    }
+                } else {
+                    inconclusive = true;
+                }
+            }
+            Evaluated {
+                result,
+                judgement: Judgement {
+                    violations,
+                    inconclusive,
+                },
+            }
+        }
+    }
 }
